@@ -450,6 +450,13 @@ class NetworkService(ModelElement):
         # peering services are joined as service - port - link - port - service
         if len(sp) != 5:
             raise TopologyException(f"Network services {self.name} and {ns.name} do not peer!")
+        # a path of that length may also lead through a connected interface or through the components of one node:
+        # what is removed below must be the two service ports facing each other over a link
+        gm = self.topo.graph_model
+        if ABCPropertyGraph.CLASS_Link not in gm.get_node_properties(node_id=sp[2])[0] or \
+                any(gm.get_node_properties(node_id=x)[1].get(ABCPropertyGraph.PROP_TYPE) != str(InterfaceType.ServicePort)
+                    for x in (sp[1], sp[-2])):
+            raise TopologyException(f"Network services {self.name} and {ns.name} do not peer!")
         # remove ConnectionPoints and link between them
         self.topo.graph_model.remove_cp_and_links(node_id=sp[1])
         ns.topo.graph_model.remove_cp_and_links(node_id=sp[-2])
